@@ -287,6 +287,15 @@ func init() {
 	add("C03", ruleR03_12)
 	add("C13", ruleR03_12)
 	add("C16", ruleR03_12)
+	// round 7: guards of the repairs F52..F55
+	add("C10", ruleR10_8)
+	add("C01", ruleR10_8)
+	add("C04", ruleR10_8)
+	add("C09", ruleR09_11)
+	add("C14", ruleR09_11)
+	add("C16", ruleR16_9)
+	add("C08", ruleR16_9)
+	add("C07", ruleR16_9)
 	for _, id := range []string{"C04", "C13"} {
 		registry[id].NeedsServer = registry[id].NeedsServer || id == "C13"
 	}
